@@ -28,7 +28,7 @@ func applyFresh(sc *Scenario, f int) {
 //
 //	dims: policy, deleting, paused, fresh(4), replicas(1..2), then per pod slot (nPods): 1 + 4 shapes * 4 owners * 2 match * 2 term
 func OwnPodsDomain(nPods int) *Domain {
-	per := 1 + 4*4*2*2
+	per := 1 + 5*4*2*2
 	dims := []int{2, 2, 2, 4, 2}
 	for i := 0; i < nPods; i++ {
 		dims = append(dims, per)
@@ -58,9 +58,42 @@ func OwnPodsDomain(nPods int) *Domain {
 			st /= 2
 			owner := ownerTab[st%4]
 			st /= 4
-			name := []string{"foo-%d", "foo-%d-x", "x-foo-%d", "foox-%d"}[st]
+			name := []string{"foo-%d", "foo-%d-x", "x-foo-%d", "foox-%d", "foo-db-%d"}[st]
 			sc.Pods = append(sc.Pods, PodSpec{Name: fmt.Sprintf(name, o), Ord: o, Phase: "Running", Ready: true, Term: term,
 				Rev: "t2.0", Owner: owner, NoMatch: nomatch})
+		}
+		return sc
+	}
+	return d
+}
+
+// AdoptDomain: several orphans at once, enumerated completely even in the quick tier.
+//
+//	dims: policy, deleting, paused, fresh(4), then 3 pod slots: absent | adoptable orphan | terminating orphan | owned
+func AdoptDomain() *Domain {
+	dims := []int{2, 2, 2, 4, 4, 4, 4}
+	d := &Domain{Name: "adopt(3 pods)", Dims: dims}
+	d.Make = func(ix []int) *Scenario {
+		sc := &Scenario{Dom: ix}
+		s := &sc.Set
+		s.Name = "foo"
+		s.Policy = []string{"OrderedReady", "Parallel"}[ix[0]]
+		s.Deleting = ix[1] == 1
+		s.Paused = ix[2] == 1
+		applyFresh(sc, ix[3])
+		s.Replicas = 3
+		s.Strat, s.RuBlock, s.PartPresent = "RollingUpdate", true, true
+		s.Tmpl, s.UpdRev, s.CurRev, s.HistLimit, s.Gen, s.ObsGen = "t2", "t2.0", "t2.0", 10, 2, 1
+		sc.Revs = stdRevs()
+		for o := 0; o < 3; o++ {
+			switch ix[4+o] {
+			case 1:
+				sc.Pods = append(sc.Pods, PodSpec{Ord: o, Phase: "Running", Ready: true, Rev: "t2.0", Owner: "none"})
+			case 2:
+				sc.Pods = append(sc.Pods, PodSpec{Ord: o, Phase: "Running", Ready: true, Term: true, Rev: "t2.0", Owner: "none"})
+			case 3:
+				sc.Pods = append(sc.Pods, PodSpec{Ord: o, Phase: "Running", Ready: true, Rev: "t2.0", Owner: "self"})
+			}
 		}
 		return sc
 	}
@@ -186,13 +219,14 @@ func HistoryDomain() *Domain {
 //	dims: nclaims(0..2), policy, replicas(1..3), slots mask(3 bits), which claims pre-exist (mask over 2 templates x 3 ordinals = 6 bits),
 //	      per ordinal (3): absent | healthy | healthy with bad identity | healthy with bad storage | failed
 func ClaimsDomain() *Domain {
-	dims := []int{3, 2, 3, 8, 64, 5, 5, 5}
+	dims := []int{3, 2, 3, 8, 64, 5, 5, 5, 2}
 	d := &Domain{Name: "claims(3 ordinals, <=2 claim templates)", Dims: dims}
 	d.Make = func(ix []int) *Scenario {
 		sc := &Scenario{Dom: ix}
 		s := &sc.Set
 		s.Name = "foo"
 		s.NClaims = ix[0]
+		s.ClaimNS = ix[8] == 1 // the first claim template carries a namespace of its own (legal, unusual)
 		s.Policy = []string{"OrderedReady", "Parallel"}[ix[1]]
 		s.Replicas = int32(ix[2] + 1)
 		s.SlotsAnn = slotsAnn(maskToSlots(ix[3], 3))
@@ -400,6 +434,8 @@ func extraDomain(name string, maxOrd, maxRep, nph int) *Domain {
 		return OwnPodsDomain(3)
 	case "own-revs":
 		return OwnRevsDomain()
+	case "adopt":
+		return AdoptDomain()
 	case "history":
 		return HistoryDomain()
 	case "claims":
